@@ -304,6 +304,12 @@ class Check(object):
         pid = self.pid
         if getattr(self, "relock", False):
             self.write_lock(rows, functions)
+        # obligations carrying a known finding's condition ([kf]) are expected NOT to be dischargeable: refuted or undecided alike
+        for u in list(undecided):
+            if u["obligation"].endswith("[kf]"):
+                undecided.remove(u)
+                refuted.append(dict(obligation=u["obligation"], clause=u.get("clause", ""), kind="kf", scope=None, trace=[], model={},
+                                    solver="none", full_scope=u["reason"]))
         undecided = self.apply_lock(undecided, refuted, functions)
         kf = known_findings()
         my_kf = [f for f in kf["finding"] if f.get("property") == pid]
